@@ -181,7 +181,10 @@ def se3_act(a, pt):
 
 def se3_box(p, d):
     n2 = d[3] * d[3] + d[4] * d[4] + d[5] * d[5]
-    w = sqrt(1.0 - n2)
+    x = 1.0 - n2
+    if -1e-14 < val(x) < 0.0:
+        x = x * 0.0  # |v| = 1 up to rounding of the sum of squares: a half turn
+    w = sqrt(x)
     return se3_oplus(p, [d[0], d[1], d[2], d[3], d[4], d[5], w])
 
 
@@ -244,7 +247,10 @@ def from_compact(k, d):
     """The pose whose compact form is d (|d_rot| <= 1 for se3)."""
     if k == "se3":
         n2 = d[3] * d[3] + d[4] * d[4] + d[5] * d[5]
-        return list(d) + [sqrt(1.0 - n2)]
+        x = 1.0 - n2
+        if -1e-14 < val(x) < 0.0:
+            x = x * 0.0
+        return list(d) + [sqrt(x)]
     return list(d)
 
 
